@@ -50,5 +50,10 @@ func (r *relativePathsResolver) absSymbolicLink(value any) (any, error) {
 	if !ok {
 		return abs, nil
 	}
+	if !filepath.IsAbs(str) {
+		// still relative to a parent project directory (extended or included file): resolving
+		// symbolic links now would be relative to the process working directory
+		return str, nil
+	}
 	return utils.ResolveSymbolicLink(str)
 }
